@@ -100,6 +100,15 @@ def check(run, project):
                     stmt = stmt._parent
                 is_test = isinstance(stmt, ast.If) and (stmt.test is n or (
                     isinstance(stmt.test, ast.BoolOp) and isinstance(stmt.test.op, ast.Or) and any(v is n for v in stmt.test.values)))
+                # `if <there is an error e> and abort_on_error: raise e` - the same mode test with the error's existence
+                # folded into it
+                conj_form = False
+                if not is_test and isinstance(stmt, ast.If) and isinstance(stmt.test, ast.BoolOp) and isinstance(stmt.test.op, ast.And) \
+                        and any(v is n for v in stmt.test.values) and len(stmt.body) == 1 and isinstance(stmt.body[0], ast.Raise) \
+                        and isinstance(stmt.body[0].exc, ast.Name):
+                    en = stmt.body[0].exc.id
+                    if all(v is n or error_test(v, en) is True for v in stmt.test.values):
+                        is_test = conj_form = True
                 if not is_test:
                     run.ob("NI-1", False, f"{q} L{n.lineno}: mode flag used in `{norm(stmt).splitlines()[0][:60]}`",
                            "the mode flag is read outside a pass-through or a raise-vs-wrap mode test (it is stored, negated, "
@@ -127,13 +136,15 @@ def check(run, project):
                         kinds.add("handler")
                     elif r[0] == "expr" and isinstance(r[1], ast.Call) and (call_name(r[1]) or "").endswith("Error"):
                         kinds.add("built")
+                    elif conj_form and r[0] == "expr" and isinstance(r[1], ast.Constant) and r[1].value is None:
+                        pass  # "no error": excluded by the conjunct that tests the error's existence
                     else:
                         kinds.add("other")
                 run.ob("NI-1", bound and kinds <= {"handler", "built"} and kinds,
                        f"{q} L{n.lineno}: error object `{e}` is bound on every path to the mode test",
                        f"`{e}` is not an already constructed / caught error on every path to the test ({sorted(kinds)})",
                        module=mod, node=stmt, func=q, construct=norm(stmt.test) + " [error binding]")
-                other = [v for v in (stmt.test.values if isinstance(stmt.test, ast.BoolOp) else []) if v is not n]
+                other = [v for v in (stmt.test.values if isinstance(stmt.test, ast.BoolOp) and not conj_form else []) if v is not n]
                 # the extra disjunct may only inspect the caught error (ownership test), not input or mode
                 for v in other:
                     names = {x.id for x in ast.walk(v) if isinstance(x, ast.Name)}
